@@ -165,7 +165,7 @@ def strip_inner_attrs(src: Source, lo: int, hi: int) -> List[Tuple[int, int]]:
 CFG_FEATURE = re.compile(r'#\s*\[\s*cfg\s*\(\s*(not\s*\(\s*)?feature\s*=\s*"([^"]+)"\s*\)?\s*\)\s*\]$')
 
 
-def cfg_in_parens_edits(src: "Source", lo: int, hi: int, features) -> List[Tuple[int, int, str]]:
+def cfg_in_parens_edits(src: "Source", lo: int, hi: int, features, opener="(") -> List[Tuple[int, int, str]]:
     """T10: `#[cfg(feature = "..")]` on a fn parameter or call argument is evaluated here (the verus! macro cannot
     carry attributes on parameters): active -> attribute removed; inactive -> attribute and element removed."""
     toks = src.toks
@@ -179,7 +179,7 @@ def cfg_in_parens_edits(src: "Source", lo: int, hi: int, features) -> List[Tuple
         elif t.kind == "punct" and t.text in ")]}":
             if stack:
                 stack.pop()
-        elif t.kind == "punct" and t.text == "#" and stack and stack[-1] == "(":
+        elif t.kind == "punct" and t.text == "#" and stack and stack[-1] == opener:
             j = k + 1
             while toks[j].kind in TRIVIA:
                 j += 1
@@ -202,7 +202,7 @@ def cfg_in_parens_edits(src: "Source", lo: int, hi: int, features) -> List[Tuple
                                 elif tx.text == "," :
                                     q += 1
                                     break
-                                elif tx.text == ")":
+                                elif tx.text in ")}":
                                     break
                             q += 1
                         edits.append((k, q, ""))
@@ -458,7 +458,11 @@ class Generator:
         drops = strip_inner_attrs(src, item.kw, end)
         # field visibility: make every field pub
         edits: List[Tuple[int, int, str]] = [(a, b, "") for a, b in drops]  # token ranges replaced by text
-        edits += self._field_vis_edits(src, item)
+        # T10: cfg on struct / enum-variant fields is evaluated by the extractor (Verus generates accessors for every field)
+        cfg_edits = cfg_in_parens_edits(src, item.kw, end, self.features, opener="{")
+        removed = [(a, b) for a, b, _ in cfg_edits]
+        edits += cfg_edits
+        edits += [e for e in self._field_vis_edits(src, item) if not any(a <= e[0] < b for a, b in removed)]
         self._emit_with_edits(src, item.kw, end, edits)
         w.emit("\n")
         if "derive_clone" in unit.flags:
